@@ -218,8 +218,8 @@ RULES.append(("C15.e", "must-pass-through: no path around the effects this prope
 
 def rule_commit(ctx):
     from . import mustpass
-    for g, floor in [('time-cell', 5), ('sched-queue', 25), ('lockfree', 25)]:
-        mustpass.commit_group(ctx, g, floor)
+    for spec in [('time-cell', 5), ('sched-queue', 25), ('lockfree', 2, r'^util::sync_cell::')]:
+        mustpass.commit_group(ctx, *spec)
 
 
 RULES.append(("C15.f", "branch-commit: between the decision to perform an effect and the effect there is no way out", rule_commit))
